@@ -294,7 +294,7 @@ const GLOB_TXT: &[char] = &['a', 'b', 'é', ' ', '[', '\\', '*', '?', '.', 'x'];
 
 /// reference: `?` exactly one character, `*` any run (also empty), whole content.
 /// `cram`: `\*`, `\?`, `\\` are literal characters.
-fn glob_ref(pattern: &[char], text: &[char], cram: bool) -> bool {
+pub fn glob_ref(pattern: &[char], text: &[char], cram: bool) -> bool {
     #[derive(Clone, Copy)]
     enum P {
         Star,
@@ -326,6 +326,44 @@ fn glob_ref(pattern: &[char], text: &[char], cram: bool) -> bool {
                 P::Star => dp[pi + 1][ti] || (ti < m && dp[pi][ti + 1]),
                 P::One => ti < m && dp[pi + 1][ti + 1],
                 P::Ch(c) => ti < m && text[ti] == c && dp[pi + 1][ti + 1],
+            };
+        }
+    }
+    dp[0][0]
+}
+
+/// byte-level reference for patterns without `?`: `*` is any run of bytes, every other character
+/// stands for its UTF-8 bytes. Independent of how undecodable bytes are grouped into characters,
+/// so it also decides lines that are not valid UTF-8 (UTF-8 is self-synchronising: a literal can
+/// only match at character boundaries of the valid parts).
+pub fn glob_ref_bytes(pattern: &[char], text: &[u8], cram: bool) -> bool {
+    let mut ps: Vec<Option<u8>> = vec![]; // None = star
+    let mut i = 0;
+    while i < pattern.len() {
+        let mut ch = pattern[i];
+        i += 1;
+        let mut literal = true;
+        if cram && ch == '\\' && i < pattern.len() && ['*', '?', '\\'].contains(&pattern[i]) {
+            ch = pattern[i];
+            i += 1;
+        } else if ch == '*' {
+            literal = false;
+        }
+        if literal {
+            let mut buf = [0u8; 4];
+            ps.extend(ch.encode_utf8(&mut buf).bytes().map(Some));
+        } else {
+            ps.push(None);
+        }
+    }
+    let (n, m) = (ps.len(), text.len());
+    let mut dp = vec![vec![false; m + 1]; n + 1];
+    dp[n][m] = true;
+    for pi in (0..n).rev() {
+        for ti in (0..=m).rev() {
+            dp[pi][ti] = match ps[pi] {
+                None => dp[pi + 1][ti] || (ti < m && dp[pi][ti + 1]),
+                Some(b) => ti < m && text[ti] == b && dp[pi + 1][ti + 1],
             };
         }
     }
@@ -426,7 +464,27 @@ fn check_glob(c: &GlobCase) -> V {
         }
     };
     let Ok(text) = std::str::from_utf8(content) else {
-        // "one character" is undefined on invalid UTF-8: crash detection only
+        // "one character" is undefined on invalid UTF-8; patterns without `?` (and without a
+        // literal U+FFFD, which a lossy decoding would make match undecodable bytes) are decided
+        // by the byte-level reference, the rest is crash detection only
+        if !c.pattern.contains('?') && !c.pattern.contains('\u{fffd}') {
+            let pat: Vec<char> = c.pattern.chars().collect();
+            let expected = glob_ref_bytes(&pat, content, c.cram);
+            let v = V::pass()
+                .nt(c.pattern.contains('*'))
+                .label(kind)
+                .label("invalid_utf8_line_decided_bytewise")
+                .label(if expected { "expected_match" } else { "expected_mismatch" });
+            return if got == expected {
+                v
+            } else {
+                V::fail(format!(
+                    "{kind} `{}` vs line {:?} (not valid UTF-8): scrut says {got}, `*` = any run of characters says {expected}",
+                    c.pattern,
+                    lossy(&c.line)
+                ))
+            };
+        }
         let mut v = V::pass().label(kind).label("unasserted_invalid_utf8");
         v.unasserted = true;
         return v;
